@@ -177,6 +177,7 @@ def run_one(tape, tier, prop):
 def _run_one(tape, tier, prop):
     res = RunResult()
     t = tape
+    res.stats["queue_size_knob_%s" % session.draw_queue_knob(t)] += 1
     spec = gen_world(t)
     has_m = any(s == "M" for s, _ in spec["base"])
     only_m = all(s == "M" for s, _ in spec["base"])
